@@ -389,7 +389,7 @@ def translate_inst(line, cx, out, phis_of, cur):
         rt = resolve(vt)
         if rt.k == 'vec': vec_decl(rt)
         if rt.k not in ('int', 'ptr', 'vec'): raise Unsupported('store of ' + repr(rt))
-        out.append('  CT_ADDR(%d, %s);' % (site(), pe))
+        out.append('  CT_ADDR(%d, %s); CT_STORE(%d, %s);' % (site(), pe, site(), pe))
         out.append('  *(%s*)%s = %s;' % (ctype(rt), pe, ve)); return
     if opc == 'alloca':
         parts = split_top(body); t, _ = parse_type(parts[0]); sz, al = size_align(t)
@@ -473,7 +473,7 @@ def translate_inst(line, cx, out, phis_of, cur):
                 return setv(t0, elementwise(t0, lambda i: f1('%s.e[%d]' % (ta, i), '%s.e[%d]' % (tb, i), '%s.e[%d]' % (tc, i), t0.elem)))
             return setv(t0, f1(a, b, c, t0))
         if name.startswith(('llvm.memcpy', 'llvm.memmove', 'llvm.memset')):
-            fn = name.split('.')[1]; out.append('  CT_ADDR(%d, %s); CT_LEN(%d, %s);' % (site(), targs[0][1], site(), targs[2][1]))
+            fn = name.split('.')[1]; out.append('  CT_ADDR(%d, %s); CT_LEN(%d, %s); CT_STORE(%d, %s);' % (site(), targs[0][1], site(), targs[2][1], site(), targs[0][1]))
             if fn != 'memset': out.append('  CT_ADDR(%d, %s);' % (site(), targs[1][1]))
             out.append('  %s(%s, %s, %s);' % (fn, targs[0][1], targs[1][1], targs[2][1])); return
         if name.startswith('llvm.bswap'):
@@ -672,7 +672,7 @@ def translate(text, tag='mod'):
     hdr = ['/* generated by ll2c from clang-14 IR - do not edit */',
            '#include <stdint.h>', '#include <stddef.h>', '#include <string.h>', '#include <stdlib.h>',
            '#ifdef CT_MODE', '#include "ct.h"', '#else',
-           '#define CT_ADDR(id,p) ((void)0)', '#define CT_BR(id,c) ((void)0)', '#define CT_LEN(id,n) ((void)0)', '#endif',
+           '#define CT_ADDR(id,p) ((void)0)', '#define CT_BR(id,c) ((void)0)', '#define CT_LEN(id,n) ((void)0)', '#define CT_STORE(id,p) ((void)0)', '#endif',
            'uint8_t nondet_u8(void); uint16_t nondet_u16(void); uint32_t nondet_u32(void); uint64_t nondet_u64(void);',
            'void verif_cpuid(unsigned leaf, unsigned sub, unsigned *a, unsigned *b, unsigned *c, unsigned *d);',
            'unsigned verif_garbage_ecx(void); void verif_xgetbv(unsigned idx, unsigned *lo, unsigned *hi);']
